@@ -213,9 +213,42 @@ func (e *Engine) selectOp(fr *frame, st *State, regs map[ssa.Value]Value, x *ssa
 	idx := c.BV(^uint64(0), 64)
 	okT := c.False
 	taken := c.False
-	ri := 0
+	// Timer channels are modelled as already expired; a real timer fires only if nothing else is
+	// ready when the select is entered, so ready non-timer cases are taken first (source order
+	// within each group).
+	var order []int
+	riOf := make([]int, len(x.States))
+	chans := make([]PtrV, len(x.States))
+	nri := 0
 	for i, s := range x.States {
-		ch := e.operand(fr, regs, s.Chan).(PtrV)
+		chans[i] = e.operand(fr, regs, s.Chan).(PtrV)
+		if s.Dir == types.RecvOnly {
+			riOf[i] = nri
+			nri++
+		}
+	}
+	isTimer := func(p PtrV) bool {
+		for _, al := range p.Alts {
+			if al.Obj != nil && al.Obj.Name == "timer.C" {
+				return true
+			}
+		}
+		return false
+	}
+	for i := range x.States {
+		if !isTimer(chans[i]) {
+			order = append(order, i)
+		}
+	}
+	for i := range x.States {
+		if isTimer(chans[i]) {
+			order = append(order, i)
+		}
+	}
+	for _, i := range order {
+		s := x.States[i]
+		ri := riOf[i]
+		ch := chans[i]
 		if e.sharedChan(st, ch) {
 			panic(e.unsupported("multi-case select on a channel shared between threads at " + where))
 		}
@@ -259,7 +292,6 @@ func (e *Engine) selectOp(fr *frame, st *State, regs map[ssa.Value]Value, x *ssa
 			idx = c.Ite(take, c.BV(uint64(i), 64), idx)
 			taken = c.Or(taken, take)
 		}
-		ri++
 	}
 	if x.Blocking {
 		e.fail(st, c.Not(taken), "noblock:select-would-block-forever", where)
